@@ -129,9 +129,9 @@ theorem siteParams_pin : Gen.PersistSites.siteParams = [("LoadCacheFromFile_c0",
   ("SaveCacheTo_a3", []),
   ("SaveCacheTo_u0", ["entry_Weight", "size"])] := by rfl
 
-theorem shape_pin : Gen.PersistSites.shape = [("LoadCacheFromFile", [1, 0, 0, 2, 1, 0]),
-  ("LoadCacheFrom", [9, 1, 10, 3, 0, 0]),
-  ("SaveCacheToFile", [4, 0, 2, 4, 1, 0]),
-  ("SaveCacheTo", [3, 1, 5, 3, 0, 0])] := by rfl
+theorem shape_pin : Gen.PersistSites.shape = [("LoadCacheFromFile", [1, 0, 0, 2, 1, 0, 0]),
+  ("LoadCacheFrom", [9, 1, 10, 3, 0, 0, 0]),
+  ("SaveCacheToFile", [4, 0, 2, 4, 1, 0, 0]),
+  ("SaveCacheTo", [3, 1, 5, 3, 0, 0, 0])] := by rfl
 
 end OtterVerif.Pin.PersistSites
